@@ -1,6 +1,7 @@
 package lib
 
 import (
+	"bufio"
 	"bytes"
 	"errors"
 	"fmt"
@@ -135,9 +136,10 @@ type Op struct {
 	MT    string
 	In    []byte
 
-	R        *sim.SimReader // EPlain, EReader, EMatch
-	UseBytes bool           // offer Bytes() on the reader
-	W        *sim.SimWriter // every entry that writes into a caller's writer
+	R          *sim.SimReader // EPlain, EReader, EMatch
+	UseBytes   bool           // offer Bytes() on the reader
+	ReaderKind int            // 0 the double itself, 1 wrapped in bufio.Reader, 2 wrapped in io.MultiReader
+	W          *sim.SimWriter // every entry that writes into a caller's writer
 	// producer side (EWriter, ERespWriter, EMiddle*): sizes of successive Write calls;
 	// the remainder goes in one call. A size 0 is an empty Write.
 	WriteChunks []int
@@ -178,6 +180,13 @@ type Op struct {
 }
 
 func (op *Op) reader() io.Reader {
+	switch op.ReaderKind {
+	case 1:
+		// what callers usually hand over: a buffered reader (it implements io.WriterTo)
+		return bufio.NewReaderSize(op.R, 16+len(op.R.Data)%4096)
+	case 2:
+		return io.MultiReader(op.R)
+	}
 	if op.UseBytes {
 		// a reader with Bytes() hands its array to the minifier, which edits it in place
 		// (documented zero-copy path): give it a private copy, never the shared corpus
